@@ -301,6 +301,8 @@ func (e *Engine) newSentinelError(msg string) Value {
 	st := e.zero(es.Type()).(*StructVal)
 	st.F[0].V = e.strConst(msg)
 	cell := e.newCell(st)
+	cell.Type = es.Type()
+	cell.Origin = "sentinel:" + msg
 	v := IfaceVal{T: types.NewPointer(es.Type()), V: PtrVal{C: cell}}
 	e.sentinels[msg] = v
 	return v
@@ -333,6 +335,9 @@ func (e *Engine) store(fr *frame, c *Cell, v Value) {
 			e.evStore(fr, c, v)
 			return
 		}
+	}
+	if c.Captured && e.ev != nil && e.ev.active && c.Shared == nil {
+		e.capturedWrite(c)
 	}
 	e.storeInto(c, v)
 }
@@ -821,6 +826,10 @@ func (e *Engine) convert(fr *frame, from, to types.Type, x Value) Value {
 				arr := &ArrayVal{E: make([]*Cell, len(s.B))}
 				for i := range arr.E {
 					arr.E[i] = e.newCell(s.B[i])
+				}
+				if e.ev != nil && e.ev.active {
+					arr.Origin = e.originName("conv@" + e.posOf(fr))
+					arr.Type = types.NewArray(sl.Elem(), int64(len(s.B)))
 				}
 				return SliceVal{Arr: arr, Len: len(s.B), Cap: len(s.B)}
 			}
